@@ -6,6 +6,7 @@ import (
 	"errors"
 	"fmt"
 	"math/rand"
+	"strconv"
 
 	sentinel "github.com/alibaba/sentinel-golang/api"
 	"github.com/alibaba/sentinel-golang/core/base"
@@ -48,7 +49,33 @@ var clk *vclock.Clock
 var L = &lsn{}
 var caseNo int
 
+// genBoundary: one ratio breaker whose threshold is a decimal fraction a/b written as the user would write it (0.28,
+// 0.07, ...); b requests complete inside one window, the a failing (or slow) ones last, so that the ratio reaches the
+// threshold EXACTLY at the last completion - which must trip the breaker ("reaches the threshold")
+func genBoundary(rng *rand.Rand) *caseDesc {
+	pairs := [][2]int{{7, 25}, {7, 50}, {7, 100}, {14, 25}, {3, 10}, {7, 10}, {9, 10}, {35, 100}, {29, 100}, {57, 100}, {1, 10}, {1, 4}, {1, 2}, {3, 4}, {3, 5}, {11, 20}, {13, 20}, {1, 20}}
+	pr := pairs[rng.Intn(len(pairs))]
+	a, b := pr[0], pr[1]
+	thr, _ := strconv.ParseFloat(fmt.Sprintf("%.2f", float64(a)/float64(b)), 64)
+	r := ref.CBRule{Strategy: vk.PickI(rng, ref.SlowRatio, ref.ErrRatio), RetryMs: 1000, MinReq: uint64(vk.PickI(rng, 0, 1, b/2, b)), StatMs: 10000, Buckets: uint64(vk.PickI(rng, 0, 1)), Threshold: thr, MaxRt: 5}
+	c := &caseDesc{Rules: []ref.CBRule{r}, T0: 1700000000000 + uint64(rng.Intn(100000))}
+	c.T0 -= c.T0 % 10000 // the whole case lies in one 10 s window
+	for i := 0; i < b; i++ {
+		bad := i >= b-a
+		c.Evs = append(c.Evs, ev{K: "start"})
+		if bad && r.Strategy == ref.SlowRatio {
+			c.Evs = append(c.Evs, ev{K: "adv", Dt: 10})
+		}
+		c.Evs = append(c.Evs, ev{K: "end", Err: bad && r.Strategy == ref.ErrRatio})
+	}
+	c.Evs = append(c.Evs, ev{K: "start"}, ev{K: "adv", Dt: 999}, ev{K: "start"}, ev{K: "adv", Dt: 1}, ev{K: "start"}, ev{K: "end"})
+	return c
+}
+
 func genCase(rng *rand.Rand) *caseDesc {
+	if rng.Intn(10) == 0 {
+		return genBoundary(rng)
+	}
 	c := &caseDesc{}
 	nb := 1
 	if rng.Intn(3) == 0 {
